@@ -35,8 +35,22 @@ def enc_groups(strs):
     return out
 
 
-def acc_array(rows):
-    return np.array(rows, dtype=int).reshape(-1, 4)
+_BUFFERS = {}
+
+
+def acc_array(rows, reuse=False):
+    """the accessor as an ndarray.  reuse=True hands out ONE long-lived array object per shape whose content is
+    overwritten in place for every case: results must depend on the content of the arguments only, never on the identity
+    or the history of the array object (stale memo / cache keyed by id())."""
+    a = np.array(rows, dtype=int).reshape(-1, 4)
+    if not reuse:
+        return a
+    buf = _BUFFERS.get(a.shape)
+    if buf is None:
+        buf = _BUFFERS[a.shape] = a.copy()
+    else:
+        buf[:] = a
+    return buf
 
 
 # ------------------------------------------------------------------------------- graphs
@@ -305,3 +319,47 @@ def wellformed_from(rows, v0):
                 good.add(v)
                 changed = True
     return good == seen and all(any(w >= 0 for w in rows[v]) for v in seen)
+
+
+def related_cfg(rng, a):
+    """a configuration close to a: same k / run / gc, motif list re-split, permuted, truncated or with one letter changed;
+    or one numeric field nudged"""
+    b = {"k": a["k"], "run": a["run"], "gc": None if a["gc"] is None else list(a["gc"]),
+         "motifs": None if a["motifs"] is None else list(a["motifs"])}
+    kind = rng.choice(["resplit", "resplit", "permute", "letter", "drop", "run", "gc"])
+    ms = b["motifs"]
+    if kind == "resplit" and ms:
+        joined = "".join(ms)
+        cuts = sorted(rng.sample(range(1, len(joined)), min(len(joined) - 1, rng.randint(1, 2)))) if len(joined) > 1 else []
+        parts, last = [], 0
+        for c in cuts + [len(joined)]:
+            parts.append(joined[last:c])
+            last = c
+        b["motifs"] = [x for x in parts if x and len(x) <= a["k"]] or ms
+    elif kind == "permute" and ms:
+        rng.shuffle(ms)
+    elif kind == "letter" and ms:
+        i = rng.randrange(len(ms))
+        j = rng.randrange(len(ms[i]))
+        ms[i] = ms[i][:j] + rng.choice(NUC) + ms[i][j + 1:]
+    elif kind == "drop" and ms:
+        b["motifs"] = ms[:-1] or None
+    elif kind == "run":
+        b["run"] = None if a["run"] is not None else 1
+    else:
+        b["gc"] = None if a["gc"] is not None else [0.25, 0.75]
+    return b
+
+
+_DICT = {}
+
+
+def lmap_dict(rows, reuse=False):
+    """the latter map of rows as a dict; reuse=True hands out ONE long-lived dict object that is cleared and refilled in
+    place for every case (results must depend on the content only, not on the object's identity or history)"""
+    m = {v: [x for x in r if x >= 0] for v, r in enumerate(rows) if any(x >= 0 for x in r)}
+    if not reuse:
+        return m
+    _DICT.clear()
+    _DICT.update(m)
+    return _DICT
